@@ -380,7 +380,7 @@ def run(ctx):
         names = set(t["op"]["name"] for t in trs)
         if len(names) != 10:
             raise core.MachineryError("coverage hole: operations emitted = %s" % sorted(names))
-        budget = ctx.pick(3000, 45000)
+        budget = ctx.pick(2500, 45000)
         keyed = sorted(trs, key=lambda t: core.stable_hash([ctx.seed, t]))
         chosen = keyed[:budget]
         ctx.exhaustive["L2_transitions"] = len(chosen) == len(trs)
@@ -392,7 +392,7 @@ def run(ctx):
     if want("sim"):
         rng = random.Random(ctx.seed + 17)
         small = [rng.randint(0, 8) for _ in range(ctx.pick(40, 300))]
-        simulate(ctx, judge, "sim_small", small, ctx.pick(150, 4000), 30, 1, True, True, ctx.pick(150, 4000))
+        simulate(ctx, judge, "sim_small", small, ctx.pick(120, 4000), 30, 1, True, True, ctx.pick(120, 4000))
         simulate(ctx, judge, "sim_empty", [rng.randint(0, 4) for _ in range(20)], ctx.pick(30, 400), 12, 0, True, True,
                  ctx.pick(30, 400))
         med = [rng.randint(9, 40) for _ in range(ctx.pick(10, 60))]
